@@ -80,9 +80,37 @@ func c16Policy(run *common.Run) {
 			"x":     {Kind: model.GcIntersection, Subs: []*model.GcRule{{Kind: model.GcMaxVersions, N: 1}, {Kind: model.GcMaxAge, AgeUs: 1000}}},
 			"plain": nil,
 		}
-		if st := drive.CreateTable(srv.Admin, drive.Parent, "t", fams); !st.OK() {
+		// every other case the table starts with OTHER rules (same kinds: more union members, longer/shorter ages with
+		// both Duration fields set, a rule on the family that ends without one) and is then brought to the final rules
+		// with ModifyColumnFamilies updates: the pass must apply the rule that was set last, not a blend
+		initial := fams
+		if i%2 == 1 {
+			initial = map[string]*model.GcRule{
+				"v":     {Kind: model.GcMaxVersions, N: int32(r.Range(1, 3))},
+				"a":     {Kind: model.GcMaxAge, AgeUs: common.Pick(r, []int64{1_500_000, 1000, 90 * 60 * 1_000_000})},
+				"u":     {Kind: model.GcUnion, Subs: []*model.GcRule{{Kind: model.GcMaxVersions, N: 1}, {Kind: model.GcMaxAge, AgeUs: 1_500_000}, {Kind: model.GcMaxAge, AgeUs: 1000}}},
+				"x":     {Kind: model.GcIntersection, Subs: []*model.GcRule{{Kind: model.GcMaxVersions, N: 1}, {Kind: model.GcMaxAge, AgeUs: 1000}, {Kind: model.GcMaxVersions, N: 3}}},
+				"plain": {Kind: model.GcMaxVersions, N: 1},
+			}
+			run.Count("policy_cases_whose_rules_were_set_by_update", 1)
+		}
+		if st := drive.CreateTable(srv.Admin, drive.Parent, "t", initial); !st.OK() {
 			run.Violation("policy", i, "CreateTable failed: "+st.String(), nil)
 			return
+		}
+		if i%2 == 1 {
+			var mods []*btapb.ModifyColumnFamiliesRequest_Modification
+			for _, f := range []string{"v", "a", "u", "x", "plain"} {
+				mods = append(mods, &btapb.ModifyColumnFamiliesRequest_Modification{Id: f, Mod: &btapb.ModifyColumnFamiliesRequest_Modification_Update{Update: &btapb.ColumnFamily{GcRule: drive.GcToProto(fams[f])}}})
+			}
+			common.Shuffle(r, mods)
+			ctx, cancel := drive.Ctx()
+			_, err := srv.Admin.ModifyColumnFamilies(ctx, &btapb.ModifyColumnFamiliesRequest{Name: drive.TableName(drive.Parent, "t"), Modifications: mods})
+			cancel()
+			if err != nil {
+				run.Violation("policy", i, "ModifyColumnFamilies(update of every family's rule) failed: "+err.Error(), nil)
+				return
+			}
 		}
 		other := drive.MustTable(srv.Admin, "other", "plain")
 		table := drive.TableName(drive.Parent, "t")
